@@ -18,6 +18,10 @@ configured output base; no fault -> success with the artifact present.
 Location dimension: the package and publish pipelines of every target also run with `package.out` (and with it the build and
 package directories) nested, absolute inside the project, absolute outside of it and reached through `..`, started in the
 project directory and in a sub-directory of it — each with every invocation point failing both ways.
+Session dimension: sequences of two or three operations in ONE process (`pkg._run_seq`), each in a project directory of its own with
+`os.chdir` between them (success then failure, failure then failure, failure then success, …; the same or a fresh `API` object; the
+failing later steps rotate through every class of invocation point): every step is judged like an operation run alone — model and
+specification know nothing of the process' past (`session_restores_cwd`, `session_fault_reported`).
 """
 from __future__ import annotations
 
@@ -51,6 +55,10 @@ THEOREMS = [
     "Pydjinni.Sys.Pkg.execOr_log",
     "Pydjinni.Sys.Pkg.faultsAt_nonzero",
     "Pydjinni.Sys.Pkg.faultsAt_single",
+    "Pydjinni.Sys.Pkg.session_restores_cwd",
+    "Pydjinni.Sys.Pkg.session_dirs",
+    "Pydjinni.Sys.Pkg.session_fault_reported",
+    "Pydjinni.Sys.Pkg.executeCached_stale_moves_cwd",
 ]
 LEVEL = "proof"
 TRUSTED = ("external tools replaced by stub scripts that log their invocation, fail at the chosen point and otherwise leave the files the "
@@ -232,6 +240,46 @@ def pair_cases(base, calls, seen):
     return out
 
 
+def sequence_cases(ctx, r, ok_runs, single):
+    """Sequences of two or three operations run in ONE process (an API user's session: the command line never does this), each in a
+    project directory of its own, the process changing directory in between: success then failure, failure then failure, failure
+    then success, success / failure / success; same or different targets and phases, the same `API` object or a fresh one.
+    The operations are taken from the ones already run alone (succeeding bases and single faults, whose invocation points are known);
+    the failing later steps rotate through every class of invocation point (tool + arguments, with / without a working directory
+    of its own, non-zero / missing), so every kind of `execute` call is met after the process has been somewhere else."""
+    def clean(c):
+        return {k: v for k, v in c.items() if k not in ("id", "history", "timeout")}
+    oks = [clean(c) for c, o, m in ok_runs if not c.get("fault") and o.get("code") is None and not o.get("prepare_failed")]
+    classes: dict = {}
+    for c, o, m in single:
+        f = c["fault"]
+        if o.get("prepare_failed") or f.get("via_java"):
+            continue
+        classes.setdefault(json.dumps([c["key"], c["phase"], f["tool"], f["sig"], f["kind"]]), []).append(clean(c))
+    if not oks or not classes:
+        return []
+    keys = sorted(classes)
+    r.shuffle(keys)
+    n = ctx.n(40, 600)
+    shapes = ["SF", "FF", "SF", "FS", "SFS", "FF", "SF", "FFF"]
+    out = []
+    for i in range(n):
+        shape = shapes[i % len(shapes)]
+        steps = []
+        for j, ch in enumerate(shape):
+            if ch == "S":
+                st = dict(r.choice(oks))
+            elif j > 0:
+                st = dict(r.choice(classes[keys[(i + j) % len(keys)]]))      # rotation: every class becomes a later step
+            else:
+                st = dict(r.choice(classes[r.choice(keys)]))
+            if j > 0 and r.random() < 0.4:
+                st["fresh_api"] = True
+            steps.append(st)
+        out.append({"seq": steps})
+    return out
+
+
 def fault_points(case, obs):
     """the failing points of a fault set as far as the run reached them, read off the stub log (ascending)"""
     f = case["fault"]
@@ -302,6 +350,32 @@ def evaluate(ctx, cases, templates, breaks):
     for i, c in enumerate(cases):
         c["id"] = f"{len(breaks)}_{ctx.coverage['evaluations']}_{i}"
     obs_l = pkg.run_cases(ctx.tmp, cases, ctx.child_env(), workers=14)
+    return judge(ctx, cases, obs_l, templates, breaks)
+
+
+def evaluate_sequences(ctx, seqs, templates, breaks):
+    """run every sequence in one process of its own; each step is then judged like an operation run alone: the model (`c20.run`) and
+    the specification (`c20.spec`) know nothing of what the process did before — `session_restores_cwd`, `session_fault_reported`"""
+    for i, q in enumerate(seqs):
+        q["id"] = f"q{len(breaks)}_{ctx.coverage['evaluations']}_{i}"
+        q["timeout"] = 30 * len(q["seq"])
+    res = pkg.run_cases(ctx.tmp, seqs, ctx.child_env(), workers=14)
+    cases, obs_l = [], []
+    for q, o in zip(seqs, res):
+        if o.get("harness_error") or o.get("hang") or len(o.get("steps", [])) != len(q["seq"]):
+            raise common.Infra(f"packaging sequence failed in the harness: {o} sequence={q['seq']}")
+        for i, (step, so) in enumerate(zip(q["seq"], o["steps"])):
+            cases.append({**step, "history": [dict(h) for h in q["seq"][:i]]})
+            obs_l.append(so)
+    return judge(ctx, cases, obs_l, templates, breaks)
+
+
+def history_shape(c):
+    """what the process did before this operation: per earlier operation (target, phase, start directory, failed?)"""
+    return [[h["key"], h["phase"], h.get("cwd", "proj"), bool(h.get("fault")), bool(h.get("fresh_api"))] for h in c.get("history") or []]
+
+
+def judge(ctx, cases, obs_l, templates, breaks):
     models = ctx.driver.batch([pkg.model_request(c, templates[c["key"]]) for c in cases])
     usable = []
     for c, o in zip(cases, obs_l):
@@ -322,9 +396,11 @@ def evaluate(ctx, cases, templates, breaks):
         key = json.dumps([c["key"], c["phase"], c.get("publish_mode"), [len(a) for _, a in c["platforms"]], bool(c.get("dsym")), bool(c.get("pdb")),
                           pkg.out_kind(c), c.get("cwd", "proj"),
                           (f["tool"], f["sig"], f["kind"]) if f else None,
-                          [p[1:] for p in f["points"]] if f and f.get("set") else None])
+                          [p[1:] for p in f["points"]] if f and f.get("set") else None, history_shape(c), bool(c.get("fresh_api"))])
         ctx.count(key=key, nontrivial=f is not None, sample={"case": describe(c), "impl": {"code": o.get("code"), "cwdAfter": o.get("cwdAfter"), "calls": len(o.get("calls", []))}})
         ctx.stat(f"{c['key']}_{c['phase']}_" + ((f"set{len(f['points'])}" if f.get("set") else f["kind"]) if f else "ok"))
+        if "history" in c:
+            ctx.stat("sequence_step_" + "".join("F" if h[3] else "S" for h in history_shape(c)) + (">F" if f else ">S"))
         if f and f.get("set") and s.get("effective"):
             ctx.stat("set_effective_" + ("handled-only" if s["effective"]["handled"] else ("first" if s["effective"]["k"] == f["k"] else "later")))
         ctx.stat("impl_code_" + str(o.get("code")))
@@ -368,8 +444,10 @@ def run(ctx):
                             "or in a sub-directory of it); per configuration a succeeding run, then every invocation "
                             "point failing as non-zero exit and as missing command; then sets of faults: every run that went on after its last fault (handled "
                             "probe) extended by every later invocation point (non-zero / tools gone), recursively up to three faults; thorough: all pairs; "
+                            "sessions: 2-3 operations in one process with a change of directory between them (success/failure patterns, same or fresh API "
+                            "object, every invocation-point class as a later step); "
                             "distinct = (target, phase, publish mode, architectures per platform, dSYM, pdb, out kind, cwd kind, failing tool + arguments, fault kind, "
-                            "tools + arguments of the fault set); non-trivial = a fault is injected")
+                            "tools + arguments of the fault set, what the process did before); non-trivial = a fault is injected")
     ctx.assumptions += [
         "a tool that fails leaves no output file (stubs write only on success); copytree/copy are atomic",
         "publish is judged from the state a succeeding package run leaves behind (a separate API object, as a separate CLI call would have)",
@@ -402,6 +480,13 @@ def run(ctx):
     while frontier:
         n_sets += len(frontier)
         frontier = follow_ups(evaluate(ctx, frontier, templates, breaks), seen)
+    # several operations in ONE process, `os.chdir` between them
+    import time
+    t0 = time.time()
+    seqs = sequence_cases(ctx, r, ok_runs, single)
+    evaluate_sequences(ctx, seqs, templates, breaks)
+    ctx.stats["sequences"] = len(seqs)
+    ctx.stats["sequence_seconds"] = round(time.time() - t0, 1)
     ctx.stats["correspondence_breaks"] = len(breaks)
     ctx.stats["bases"] = len(bases)
     ctx.stats["fault_cases"] = len(faults)
@@ -417,7 +502,13 @@ def run(ctx):
 def replay(ctx, body):
     case = dict(body["input"])
     case["id"] = "replay"
-    (o,) = pkg.run_cases(ctx.tmp, [case], ctx.child_env(), workers=1)
+    if case.get("history"):
+        # the operation is the last of a sequence run in one process
+        seq = {"seq": list(case["history"]) + [{k: v for k, v in case.items() if k not in ("history", "id")}], "id": "replay", "timeout": 120}
+        (q,) = pkg.run_cases(ctx.tmp, [seq], ctx.child_env(), workers=1)
+        o = q["steps"][-1]
+    else:
+        (o,) = pkg.run_cases(ctx.tmp, [case], ctx.child_env(), workers=1)
     if o.get("prepare_failed"):
         print(json.dumps(o, indent=1))
         return False
